@@ -212,6 +212,8 @@ pub enum Op {
     Sync,
     /// create an iterator, advance the clock by n ticks, then consume it
     IterAdv(u8),
+    /// sync cache: create an iterator, call invalidate_all(), then consume the iterator
+    IterInvAll,
 }
 
 impl Op {
@@ -227,6 +229,7 @@ impl Op {
             Op::Adv(_) => "advance",
             Op::Sync => "sync",
             Op::IterAdv(_) => "iter-across-advance",
+            Op::IterInvAll => "iter-across-invalidate_all",
         }
     }
     pub fn text(&self) -> String {
@@ -244,6 +247,7 @@ impl Op {
             Op::Adv(n) => format!("adv({n})"),
             Op::Sync => "sync".into(),
             Op::IterAdv(n) => format!("iteradv({n})"),
+            Op::IterInvAll => "iterinvall".into(),
         }
     }
     pub fn parse(s: &str) -> Op {
@@ -277,6 +281,7 @@ impl Op {
             "adv" => Op::Adv(n(0)),
             "sync" => Op::Sync,
             "iteradv" => Op::IterAdv(n(0)),
+            "iterinvall" => Op::IterInvAll,
             _ => panic!("bad op {s}"),
         }
     }
@@ -410,6 +415,7 @@ impl Sut {
                     v.sort();
                     Obs::Items(v)
                 }
+                Op::IterInvAll => panic!("harness: the unsync cache cannot be invalidated while an iterator borrows it"),
             },
             Sut::S { c, clock } => match op {
                 Op::Ins(k, w) => {
@@ -444,6 +450,14 @@ impl Sut {
                 Op::IterAdv(n) => {
                     let it = c.iter();
                     clock.advance(Duration::from_millis(n as u64 * cfg.tick_ms));
+                    let mut v: Vec<(u8, u32)> = it.map(|r| (r.key().k, r.value().id)).collect();
+                    v.sort();
+                    Obs::Items(v)
+                }
+                Op::IterInvAll => {
+                    // (no map guard is held before the first next())
+                    let it = c.iter();
+                    c.invalidate_all();
                     let mut v: Vec<(u8, u32)> = it.map(|r| (r.key().k, r.value().id)).collect();
                     v.sort();
                     Obs::Items(v)
@@ -517,6 +531,9 @@ pub fn alphabet(cfg: &Cfg) -> Vec<Op> {
             a.push(Op::Iter);
             per_key(&mut a, Op::Inv, n);
             a.push(Op::InvAll);
+            if s {
+                a.push(Op::IterInvAll);
+            }
             if !s {
                 a.push(Op::InvIf(Pred::Keys(0b001)));
                 a.push(Op::InvIf(Pred::Keys(0b110)));
@@ -562,6 +579,9 @@ pub fn alphabet(cfg: &Cfg) -> Vec<Op> {
             a.push(Op::Iter);
             per_key(&mut a, Op::Inv, n);
             a.push(Op::InvAll);
+            if s {
+                a.push(Op::IterInvAll);
+            }
             if !s {
                 a.push(Op::InvIf(Pred::Keys(0b001)));
                 a.push(Op::InvIf(Pred::Keys(0b110)));
